@@ -514,6 +514,7 @@ func proveClamp(c *Ctx, f *Func, L *types.Var) {
 		}
 		return false
 	}
+	var combine func(isMax bool, x, y ast.Expr) bounds
 	bnd = func(e ast.Expr) bounds {
 		e = unparen(e)
 		out := bounds{map[string]bool{}, map[string]bool{}}
@@ -536,47 +537,51 @@ func proveClamp(c *Ctx, f *Func, L *types.Var) {
 		}
 		call, ok := e.(*ast.CallExpr)
 		if ok && len(call.Args) == 2 && (isBuiltin(info, call, "min") || isBuiltin(info, call, "max")) {
-			a, b := bnd(call.Args[0]), bnd(call.Args[1])
-			syms := map[string]bool{}
-			for k := range a.lower {
-				syms[k] = true
-			}
-			for k := range a.upper {
-				syms[k] = true
-			}
-			for k := range b.lower {
-				syms[k] = true
-			}
-			for k := range b.upper {
-				syms[k] = true
-			}
-			if s := sym(call.Args[0]); s != "" {
-				syms[s] = true
-			}
-			if s := sym(call.Args[1]); s != "" {
-				syms[s] = true
-			}
-			for s := range syms {
-				ga, gb := geq(a, call.Args[0], s), geq(b, call.Args[1], s)
-				la, lb := leq(a, call.Args[0], s), leq(b, call.Args[1], s)
-				if isBuiltin(info, call, "max") {
-					if ga || gb {
-						out.lower[s] = true
-					}
-					if la && lb {
-						out.upper[s] = true
-					}
-				} else {
-					if ga && gb {
-						out.lower[s] = true
-					}
-					if la || lb {
-						out.upper[s] = true
-					}
+			return combine(isBuiltin(info, call, "max"), call.Args[0], call.Args[1])
+		}
+		return out
+	}
+	// combine: the bounds of max(x, y) / min(x, y)
+	combine = func(isMax bool, x, y ast.Expr) bounds {
+		out := bounds{map[string]bool{}, map[string]bool{}}
+		a, b := bnd(x), bnd(y)
+		syms := map[string]bool{}
+		for k := range a.lower {
+			syms[k] = true
+		}
+		for k := range a.upper {
+			syms[k] = true
+		}
+		for k := range b.lower {
+			syms[k] = true
+		}
+		for k := range b.upper {
+			syms[k] = true
+		}
+		if s := sym(x); s != "" {
+			syms[s] = true
+		}
+		if s := sym(y); s != "" {
+			syms[s] = true
+		}
+		for s := range syms {
+			ga, gb := geq(a, x, s), geq(b, y, s)
+			la, lb := leq(a, x, s), leq(b, y, s)
+			if isMax {
+				if ga || gb {
+					out.lower[s] = true
+				}
+				if la && lb {
+					out.upper[s] = true
+				}
+			} else {
+				if ga && gb {
+					out.lower[s] = true
+				}
+				if la || lb {
+					out.upper[s] = true
 				}
 			}
-			// transitivity through known bounds of symbols: x >= s and s >= t
-			return out
 		}
 		return out
 	}
@@ -584,10 +589,83 @@ func proveClamp(c *Ctx, f *Func, L *types.Var) {
 	var posB, endB *bounds
 	var lenExpr ast.Expr
 	okShape := false
+	closeLower := func(b bounds) {
+		for k := range b.lower {
+			if strings.HasPrefix(k, "v:") {
+				for obj, ob := range env {
+					if "v:"+obj.Name() == k {
+						for kk := range ob.lower {
+							b.lower[kk] = true
+						}
+					}
+				}
+			}
+		}
+	}
 	ast.Inspect(f.Body, func(q ast.Node) bool {
+		// the clamp written as a test and an assignment: if x < E { x = E } is x = max(x, E); if x > E { x = E } is min
+		topLevel := func(n ast.Node) bool {
+			blk, ok := w.parent[n].(*ast.BlockStmt)
+			if !ok {
+				return false
+			}
+			switch w.parent[blk].(type) {
+			case *ast.RangeStmt, *ast.ForStmt, *ast.FuncDecl:
+				return true
+			}
+			return false
+		}
+		if is, ok := q.(*ast.IfStmt); ok && is.Init == nil && is.Else == nil && len(is.Body.List) == 1 && topLevel(is) {
+			if as, ok := is.Body.List[0].(*ast.AssignStmt); ok && as.Tok == token.ASSIGN && len(as.Lhs) == 1 && len(as.Rhs) == 1 {
+				if cmp, ok := unparen(is.Cond).(*ast.BinaryExpr); ok {
+					if xid := identOf(as.Lhs[0]); xid != nil {
+						xobj := info.Uses[xid]
+						_, tracked := env[xobj]
+						var other ast.Expr
+						op := cmp.Op
+						if id := identOf(cmp.X); id != nil && info.Uses[id] == xobj {
+							other = cmp.Y
+						} else if id := identOf(cmp.Y); id != nil && info.Uses[id] == xobj {
+							other = cmp.X
+							op = map[token.Token]token.Token{token.LSS: token.GTR, token.GTR: token.LSS, token.LEQ: token.GEQ, token.GEQ: token.LEQ}[op]
+						}
+						if tracked && other != nil && exprStr(other) == exprStr(as.Rhs[0]) && isIntType(xobj.Type()) {
+							switch op {
+							case token.LSS, token.LEQ:
+								b := combine(true, xid, other)
+								closeLower(b)
+								env[xobj] = b
+								return false
+							case token.GTR, token.GEQ:
+								b := combine(false, xid, other)
+								closeLower(b)
+								env[xobj] = b
+								return false
+							}
+						}
+					}
+				}
+			}
+		}
 		as, ok := q.(*ast.AssignStmt)
 		if !ok {
 			return true
+		}
+		// a tracked local assigned anew
+		if as.Tok == token.ASSIGN && len(as.Lhs) == len(as.Rhs) {
+			for i, l := range as.Lhs {
+				if id := identOf(l); id != nil {
+					if _, tracked := env[info.Uses[id]]; tracked {
+						b := bnd(as.Rhs[i])
+						closeLower(b)
+						if !topLevel(as) {
+							// assigned on some paths only: nothing is known afterwards
+							b = bounds{map[string]bool{}, map[string]bool{}}
+						}
+						env[info.Uses[id]] = b
+					}
+				}
+			}
 		}
 		if as.Tok == token.DEFINE && len(as.Lhs) == len(as.Rhs) {
 			for i, l := range as.Lhs {
